@@ -20,6 +20,7 @@ import os
 import random
 
 PROPERTY = "C02"
+_CONCAT_FORM = [0]
 
 _G = None  # graph tables, loaded lazily in children
 
@@ -231,7 +232,14 @@ def apply_real(bl, op, a):
         elif op == "concat":
             bl = bl + make(a[0], a[1])
         elif op == "rconcat":
-            bl = BondList.concatenate([make(a[0], a[1]), bl])
+            # concatenate() takes an "iterable object of BondList": the operands are handed over in turn
+            # as list, tuple, generator, one-shot iterator and dict view (container forms, cf. BondCalls)
+            ops_ = [make(a[0], a[1]), bl]
+            _CONCAT_FORM[0] += 1
+            k = _CONCAT_FORM[0] % 5
+            arg = (ops_ if k == 0 else tuple(ops_) if k == 1 else (x for x in ops_) if k == 2
+                   else iter(ops_) if k == 3 else dict(enumerate(ops_)).values())
+            bl = BondList.concatenate(arg)
         elif op == "offset":
             bl.offset_indices(int_form(a[0], _forms(a, 1, 1)[0]))
         elif op == "strip_arom":
@@ -1125,6 +1133,6 @@ def replay(record):
 
 MANIFEST = {
     "technique": "TLA+ state machine of BondList (specs/C02) model-checked by TLC; every transition of TLC's state graph replayed into the real BondList; every single call in every argument form and every comparison enumerated by TLC and executed; recorded random histories validated by TLC",
-    "level_text": "TLC explores every reachable state of the bond-list machine for <=3 atoms / 3 bond types under all 17 operations (incl. == / != against every one-aspect variant of the current list, the operand lists and foreign objects) with in- and out-of-range indices (invariants: canonical mapping, cache soundness, refusal is a no-op), then every transition of that graph is executed against the real BondList in crash-isolated processes comparing atom count, bond set, outcome class and returned views. A second exhaustive model (BondCalls) enumerates one call on root lists of 0..4 atoms with its arguments in every form a caller may use (Python int / numpy integer scalars int8..uint64, lists, integer ndarrays of every dtype, byte order and layout, bool arrays, lists of bools, strided views, slices with numpy bounds, constructor arrays of every dtype / order) and the comparison of every list of <=3 atoms with every variant differing in atom count, one bond type, one bond, or only in the way the rows are written; TLC proves form independence, bl[i] = get_bonds(i) and equality = agreement of all views, and all cases are executed against the real code. Larger lists (<=30 atoms, all 10 bond types, unsorted index arrays, stepped slices, random forms, comparisons with variants of the real list) are covered by recorded histories that TLC re-computes event by event.",
+    "level_text": "TLC explores every reachable state of the bond-list machine for <=3 atoms / 3 bond types under all 17 operations (incl. == / != against every one-aspect variant of the current list, the operand lists and foreign objects) with in- and out-of-range indices (invariants: canonical mapping, cache soundness, refusal is a no-op), then every transition of that graph is executed against the real BondList in crash-isolated processes comparing atom count, bond set, outcome class and returned views. A second exhaustive model (BondCalls) enumerates one call on root lists of 0..4 atoms with its arguments in every form a caller may use (Python int / numpy integer scalars int8..uint64, lists, integer ndarrays of every dtype, byte order and layout, bool arrays, lists of bools, strided views, slices with numpy bounds, constructor arrays of every dtype / order) and the comparison of every list of <=3 atoms with every variant differing in atom count, one bond type, one bond, or only in the way the rows are written; TLC proves form independence, bl[i] = get_bonds(i) and equality = agreement of all views, and all cases are executed against the real code. Larger lists (<=30 atoms, all 10 bond types, unsorted index arrays, stepped slices, random forms, comparisons with variants of the real list) are covered by recorded histories that TLC re-computes event by event. concatenate() receives its operands in turn as list, tuple, generator, one-shot iterator and dict view.",
     "level_note": "Bounded: exhaustive only for n<=3 atoms and types {0,1,5} (single calls: n<=4, thorough n<=5); beyond that only recorded histories. Self-bonds and ill-formed masks are outside the domain. Trusted: TLC, the TLA+ value parser, numpy, the projection get_atom_count()/as_array(). Cython is unavailable, so a defect in bonds.pyx can only be recorded as a known finding.",
 }
